@@ -154,26 +154,36 @@ class Session:
         self.inp = os.path.join(self.d, 'in.bam')
         build_input(self.inp, method, tier, extra=extra, dense=dense)
         self.nrec = len(records(self.inp))
-        out = os.path.join(self.d, 'serial.bam')
-        exc, _ = tagger.run_tagger([self.inp, '-method', method, '-o', out, '-temp_folder', self.d])
-        if exc is not None:
-            self.serial = None
-            self.serial_error = exc
-        else:
-            self.serial = canon(records(out))
-            self.serial_error = None
+        self._serial = {}
+        self.serial, self.serial_error = self.serial_for(())
+
+    def serial_for(self, opts):
+        """serial reference output for extra command-line options (cached per option tuple)"""
+        opts = tuple(opts)
+        if opts not in self._serial:
+            out = os.path.join(self.d, 'serial.bam')
+            for p in (out, out + '.bai'):
+                if os.path.exists(p):
+                    os.remove(p)
+            exc, _ = tagger.run_tagger([self.inp, '-method', self.method, '-o', out, '-temp_folder', self.d] + list(opts))
+            self._serial[opts] = (None, exc) if exc is not None else (canon(records(out)), None)
+        return self._serial[opts]
 
     def close(self):
         shutil.rmtree(self.d, ignore_errors=True)
 
-    def run_parallel(self, cfg, order):
+    def run_parallel(self, cfg, order, extra_opts=()):
         """cfg: None (= --multiprocess contig per process) or dict(b, f, j, pool). Returns (violations, njobs)"""
         tm = tagger.tagger_module()
         out = os.path.join(self.d, 'par.bam')
         for p in (out, out + '.bai'):
             if os.path.exists(p):
                 os.remove(p)
-        argv = [self.inp, '-method', self.method, '-o', out, '-temp_folder', self.d, '--multiprocess']
+        opts = list((cfg or {}).get('opts', ())) + list(extra_opts)
+        serial, serial_error = self.serial_for(opts)
+        if serial is None:
+            return [(f'{self.method}:serial:exception:{type(serial_error).__name__}', repr(serial_error))], None
+        argv = [self.inp, '-method', self.method, '-o', out, '-temp_folder', self.d, '--multiprocess'] + opts
         real = seam(tm, 'tag_multiome_multi_processing')
         if cfg is not None:
             def wrapper(**kw):
@@ -195,9 +205,11 @@ class Session:
         if not os.path.exists(out):
             return [(f'{self.method}:{tag}:no-output', {})], njobs
         got = canon(records(out))
-        if got == self.serial:
+        if got == serial:
             return [], njobs
-        return [(f'{self.method}:{tag}:{s}', d) for s, d in diff_signature(self.serial, got)], njobs
+        if opts:
+            tag += ':' + opts[0].lstrip('-')
+        return [(f'{self.method}:{tag}:{s}', d) for s, d in diff_signature(serial, got)], njobs
 
 
 def configs(tier):
@@ -213,6 +225,11 @@ def configs(tier):
                     out.append({'b': b, 'f': f, 'j': j, 'pool': pool})
     # a fine tiling with more than a hundred jobs (one bin per job)
     out.append({'b': 20, 'f': 60, 'j': 20, 'pool': True, 'few_orders': True})
+    # an option that makes some fragments rejects (longer than the limit): the serial run still writes both mates, flagged
+    for f in bd['fetch_margins']:
+        out.append({'b': 250, 'f': f, 'j': 250, 'pool': True, 'opts': ['-max_fragment_size', '30'], 'few_orders': True})
+    # a history of calls in one process: restricted to one contig, then the whole file, then another contig
+    out.append({'b': 250, 'f': 60, 'j': 750, 'pool': True, 'history': ['c2', None, 'c1', None], 'few_orders': True})
     return out
 
 
@@ -233,6 +250,14 @@ def run_shard(shard, tier, acc):
             case = {'method': method, 'cfg': None, 'order': None, 'tier': tier}
             acc.case(case, outcome='serial-failed')
             acc.violation(f'{method}:serial:exception:{type(ses.serial_error).__name__}', case, repr(ses.serial_error))
+            return
+        if cfg is not None and cfg.get('history'):
+            for step, contig in enumerate(cfg['history']):
+                extra = ['-contig', contig] if contig else []
+                case = {'method': method, 'cfg': cfg, 'order': None, 'tier': tier, 'history_step': step}
+                viols, njobs = ses.run_parallel(cfg, None, extra_opts=extra)
+                viols = [(sg + ':in-a-history-of-calls', d) for sg, d in viols]
+                _report(acc, case, viols, njobs, ses.nrec)
             return
         # first run in submission order tells how many jobs there are
         case = {'method': method, 'cfg': cfg, 'order': None, 'tier': tier}
@@ -268,6 +293,14 @@ def replay(case):
     try:
         if ses.serial is None:
             return [(f"{case['method']}:serial:exception:{type(ses.serial_error).__name__}", repr(ses.serial_error))]
-        return ses.run_parallel(case['cfg'], case['order'])[0]
+        cfg = case['cfg']
+        if cfg is not None and cfg.get('history'):
+            out = []
+            for step, contig in enumerate(cfg['history']):
+                v, _ = ses.run_parallel(cfg, None, extra_opts=(['-contig', contig] if contig else []))
+                if step == case.get('history_step'):
+                    out = [(sg + ':in-a-history-of-calls', d) for sg, d in v]
+            return out
+        return ses.run_parallel(cfg, case['order'])[0]
     finally:
         ses.close()
